@@ -32,13 +32,28 @@ type Program struct {
 // syntax and type information. It fails (fail closed) when no package loads or
 // any package has a type or parse error.
 func LoadProgram(repo string, goarch string, overlay map[string][]byte) (*Program, error) {
+	return loadProgram(repo, goarch, overlay, false)
+}
+
+// LoadProgramLight loads syntax and types of the module's own packages only (dependencies from export
+// data): enough for the machine extraction, and a fraction of the memory of the full load. Used by the
+// in-memory table sweep, which loads one program per mutant.
+func LoadProgramLight(repo string, overlay map[string][]byte) (*Program, error) {
+	return loadProgram(repo, "", overlay, true)
+}
+
+func loadProgram(repo string, goarch string, overlay map[string][]byte, light bool) (*Program, error) {
 	env := append(os.Environ(),
 		"GOFLAGS=-mod=mod", "GOPROXY=off", "GOSUMDB=off", "GOTOOLCHAIN=local", "GOWORK=off", "CGO_ENABLED=0")
 	if goarch != "" {
 		env = append(env, "GOARCH="+goarch)
 	}
+	mode := packages.LoadAllSyntax
+	if light {
+		mode = packages.LoadSyntax
+	}
 	cfg := &packages.Config{
-		Mode:    packages.LoadAllSyntax,
+		Mode:    mode,
 		Dir:     repo,
 		Tests:   false,
 		Env:     env,
